@@ -21,6 +21,7 @@ type config struct {
 	lastDeltas  []uint64 // further dt choices allowed only for the last step of a sequence
 	ops         []op     // per-account alphabet, simplest first
 	f10Depth    int      // abandoned-block variant is tried for steps up to this depth
+	prefix      []step   // start state: these steps (all must be accepted) are executed first; depth counts from there
 }
 
 var quickOps = []op{
@@ -58,7 +59,14 @@ func tierPasses(tier string) []config {
 			{name: "full-d4", depth: 4, maxBlockOps: 3, deltas: []uint64{lockD, lockD - 1}, lastDeltas: []uint64{1}, f10Depth: 2, ops: fullOps()},
 		}
 	} else {
-		ps = []config{{name: "core-d4", depth: 4, maxBlockOps: 2, deltas: []uint64{lockD}, lastDeltas: []uint64{lockD - 1}, f10Depth: 2, ops: quickOps}}
+		ps = []config{{name: "core-d4", depth: 4, maxBlockOps: 2, deltas: []uint64{lockD}, lastDeltas: []uint64{lockD - 1}, f10Depth: 2, ops: quickOps},
+			// non-initial start states: nothing but staking is possible from genesis, so these passes spend
+			// their depth behind two (three) accounts that already hold the minimum stake
+			{name: "core-d3-from-2-stakers", depth: 3, maxBlockOps: 2, deltas: []uint64{lockD}, lastDeltas: []uint64{lockD - 1}, ops: quickOps,
+				prefix: []step{{Dt: 1, Acct: 0, Op: op{opStake, 0}}, {Dt: 0, Acct: 2, Op: op{opStake, 0}}}},
+			{name: "core-d3-from-3-stakers", depth: 3, maxBlockOps: 2, deltas: []uint64{lockD}, lastDeltas: []uint64{lockD - 1}, ops: quickOps,
+				prefix: []step{{Dt: 1, Acct: 0, Op: op{opStake, 0}}, {Dt: 0, Acct: 1, Op: op{opStake, 1}}, {Dt: 1, Acct: 2, Op: op{opStake, 0}}}},
+		}
 	}
 	if v := os.Getenv("VERIF_C15_PASS"); v != "" { // experiments only
 		for _, c := range ps {
@@ -136,6 +144,7 @@ type explorer struct {
 	cfg      config
 	memo     map[[16]byte]int8
 	lvl2     int
+	base     int // length of the pass's prefix: levels are counted from there
 	f8       bool // reported in this shard
 	f10      bool
 	f15      bool
@@ -310,10 +319,41 @@ func (e *explorer) boundary(w *world, m *model, path []step, count bool) (*obs, 
 	return o, true
 }
 
-// root: the genesis boundary; the first step opens block 1.
+// root: the genesis boundary (or the boundary after the pass's prefix); the first step opens the
+// next block.
 func (e *explorer) root() {
 	w := newWorld()
 	m := newModel(initBal)
+	var path []step
+	for i, st := range e.cfg.prefix {
+		if i == 0 || st.Dt > 0 {
+			if w.bs != nil {
+				if _, ok := e.boundary(w, m, path, false); !ok {
+					return
+				}
+			}
+			w.begin(st.Dt)
+			m.now = w.now
+		}
+		acc, ok := e.tryOp(w, m, path, st, false)
+		if !ok {
+			return
+		}
+		if !acc {
+			panic("harness: prefix step refused: " + pathText(append(path, st)))
+		}
+		m.apply(st.Acct, st.Op, w.witness())
+		path = append(path, st)
+	}
+	e.base = len(path)
+	if w.bs != nil {
+		o, ok := e.boundary(w, m, path, false)
+		if !ok {
+			return
+		}
+		e.expandClosed(w, m, path, e.cfg.depth, o, e.cfg.deltas)
+		return
+	}
 	o, err := observe(w.root)
 	chk(err)
 	e.expandClosed(w, m, nil, e.cfg.depth, o, []uint64{1})
@@ -331,7 +371,7 @@ func (e *explorer) node(w *world, m *model, path []step, left int, start *bsnap,
 		e.stop = true
 		return
 	}
-	mine := len(path) > 1 || e.ctx.Shard == 0 // level-1 nodes are walked by every shard, counted once
+	mine := len(path)-e.base > 1 || e.ctx.Shard == 0 // level-1 nodes are walked by every shard, counted once
 	if mine {
 		e.ctx.Trace(1)
 		e.ctx.Max("max_depth", int64(len(path)))
@@ -339,7 +379,7 @@ func (e *explorer) node(w *world, m *model, path []step, left int, start *bsnap,
 			e.sample = pathText(path)
 		}
 	}
-	if len(path) > 1 && e.seen(hkey("open", startKey, blockText(blk)), left) {
+	if len(path)-e.base > 1 && e.seen(hkey("open", startKey, blockText(blk)), left) {
 		return
 	}
 	// (a) further ops in the same block
@@ -395,7 +435,7 @@ func (e *explorer) expandClosed(w *world, m *model, path []step, left int, o *ob
 	if left == 0 {
 		return
 	}
-	if len(path) > 1 && e.seen(hkey("closed", o.canon(w.now)), left) {
+	if len(path)-e.base > 1 && e.seen(hkey("closed", o.canon(w.now)), left) {
 		return
 	}
 	cs := e.snapshot(w)
@@ -422,7 +462,7 @@ func (e *explorer) expandClosed(w *world, m *model, path []step, left int, o *ob
 				}
 				if ok {
 					// abandoned-block variant (F10), judged as a leaf
-					if len(path) < e.cfg.f10Depth && (op.Kind == opVoteBP || op.Kind == opVoteDAO || op.Kind == opUnstake) {
+					if len(path)-e.base < e.cfg.f10Depth && (op.Kind == opVoteBP || op.Kind == opVoteDAO || op.Kind == opUnstake) {
 						w.abandon()
 						mem, _ := system.VerifC15VprState()
 						e.ctx.Eval(1)
@@ -453,7 +493,7 @@ func (e *explorer) expandClosed(w *world, m *model, path []step, left int, o *ob
 
 // skipShard: the children of level-1 nodes are dealt round-robin to the shards.
 func (e *explorer) skipShard(path []step) bool {
-	if len(path) != 1 {
+	if len(path)-e.base != 1 {
 		return false
 	}
 	e.lvl2++
